@@ -30,9 +30,9 @@ class GopherPlusProtocol(GopherProtocol):
             return False  # Too many params.
 
         return (
-            self.gopherpstring[0] == "+"
+            self.gopherpstring.startswith("+")
             or self.gopherpstring == "!"
-            or self.gopherpstring[0] == "$"
+            or self.gopherpstring.startswith("$")
         )
 
     def handle(self):
